@@ -41,6 +41,14 @@ def generate(prop, rng, seed, index, tier):
     def cands(pred=lambda t: True):
         return [i for i in real_candidates(pred) if g.graph[i]['op'] not in ('source',)]
     g.candidates = cands
+    if rng.random() < 0.25:
+        # the same function object applied by two nodes to the same scattered element with different extras,
+        # both results alive at once (joined by a zip)
+        k1, k2 = rng.sample([1, 2, 3, 100], 2)
+        t1 = ('fix', (('fix', (gen.INT, gen.INT)), gen.INT))
+        a = g.add({'op': 'map', 'up': [scat[0]], 'fn': ['tag', 0], 'shared_fn': True, 'args': [k1]}, t1)
+        b = g.add({'op': 'map', 'up': [scat[0]], 'fn': ['tag', 0], 'shared_fn': True, 'args': [k2]}, t1)
+        g.add({'op': 'zip', 'up': [a, b]}, ('fix', (t1, t1)))
     target = rng.randrange(1, 7 if big else 5)
     tries = 0
     while len(g.graph) - 2 * nsrc < target and tries < 40:
